@@ -5,6 +5,12 @@ from ..consteval import CantEval
 from ..index import dotted, walk_no_nested, loc
 from ..reference import flags as REF
 from ..symeval import Obj, PureInterp, Raised, Unsupported, tok
+
+
+def _mk_instance(*a, **k):
+    from .evalhelpers import make_instance
+    return make_instance(*a, **k)
+
 from .persist import _calls
 
 BACKENDS = (
@@ -26,7 +32,7 @@ def compile_script(ctx, mod, cname, options, log_mode="full", spec=None, wd=None
     ci = idx.cls(f"{mod}:{cname}")
     fn = idx.method(ci, "compile_script")
     interp = PureInterp(ctx)
-    self_obj = Obj("ops", working_dir=PROJ, log_mode=log_mode, accounting_enabled=True, **{"__class__": ci})
+    self_obj = _mk_instance(ctx, ci, "ops", working_dir=PROJ, log_mode=log_mode, accounting_enabled=True)
     script = interp.call(fn, (make_target(ctx, options, spec, wd),), {}, self_obj=self_obj)
     if not isinstance(script, str):
         raise Unsupported(f"compile_script returned {type(script).__name__}")
